@@ -22,7 +22,7 @@ RULE = (
     "(depth <= 8, fan-out <= 3, 6-24 types) with refused operations mixed in; thorough: larger samples. On the final state all "
     "ordered pairs of the queried names go through ts.subsumes, Type.subsumes and is_instance_of; supertype, children, "
     "descendants, is_primitive per name; get_type/contains_type over full, short, unknown and ambiguous strings; object "
-    "identity of every reachable Type. Every 100th case queries all registered types. Non-trivial: two user types in an "
+    "identity of every reachable Type. Every 200th case queries all registered types. Non-trivial: two user types in an "
     "ancestor relation, or a refused operation."
 )
 TRUSTED = [
@@ -73,10 +73,10 @@ def _mk(ops, rng=None, extra_names=(), full=False):
     else:
         parents = [op["s"] for op in ops if op["op"] == "ct" and op["s"] in T.BUILTIN_NAMES]
         names = []
-        for n in users[:9] + parents[:3] + [T.TOP, "uima.cas.String"] + list(extra_names):
+        for n in users[:6] + parents[:2] + [T.TOP, "uima.cas.String"] + list(extra_names):
             if n not in names:
                 names.append(n)
-        names = names[:12]
+        names = names[:9]
     lookups = []
     for s in BASE_LOOKUPS + users + [T.short(u) for u in users]:
         if s not in lookups:
@@ -149,7 +149,7 @@ def _random_history(rng, big):
     for n in deep + sc["names"]:
         if n not in names:
             names.append(n)
-    sc["names"] = names[:12]
+    sc["names"] = names[:9]
     return sc
 
 
@@ -158,15 +158,15 @@ def generate(rng, tier):
         yield _mk([], full=True)
         for L in (1, 2):
             for k, h in enumerate(itertools.product(ALPHABET, repeat=L)):
-                yield _mk([dict(o) for o in h], full=(k % 100 == 7))
+                yield _mk([dict(o) for o in h], full=(k % 200 == 7))
         n_s = {"quick": 140, "thorough": 6000}[tier]
         for k in range(n_s):
             L = 3 if k % 2 == 0 else 4
-            yield _mk([dict(rng.choice(ALPHABET)) for _ in range(L)], rng, full=(k % 100 == 7))
+            yield _mk([dict(rng.choice(ALPHABET)) for _ in range(L)], rng, full=(k % 200 == 7))
     n_r = {"quick": 160, "thorough": 5000, "search": 3000}[tier]
     for k in range(n_r):
         sc = _random_history(rng, big=(k % 3 == 0))
-        if k % 100 == 7:
+        if k % 200 == 7:
             sc = dict(_mk(sc["ops"], rng, full=True), pairs=sc["pairs"])
         yield sc
 
